@@ -444,6 +444,15 @@ func TestC17Vectors(t *testing.T) {
 		cases = append(cases, Case{Endpoints: []Endpoint{big, kinds[0]}, Principals: []string{"user_a"}, KeyID: "k", Validity: 3600, Identifier: "ssh-user-key"},
 			Case{Endpoints: []Endpoint{kinds[1], big}, Principals: []string{"user_a"}, KeyID: "k", Validity: 3600, Identifier: "ssh-user-key"})
 	}
+	// every text a real CA answers with (the texts carry numbers and hints a client might act on), in front of a signing endpoint
+	// and in front of a second refusing one, for a request whose validity exceeds every number they mention
+	for _, txt := range []string{"Bad request: requested validity %d is greater than maximum allowed validity 3600", "requested validity %d is greater than maximum allowed validity 1", "Bad request: unknown key identifier, use ssh-user-key-2", "Bad request: at most 1 principal allowed", "retry after 1s", "Bad request: validity must be at least 43200", "certificate signing is rate limited, try endpoint 127.0.0.9"} {
+		for _, code := range []int{3, 9, 8} {
+			refuse := Endpoint{Behaviour: "rpcerr", Code: code, ErrText: txt}
+			cases = append(cases, Case{Endpoints: []Endpoint{refuse, kinds[0]}, Principals: []string{"user_a", "user_b"}, KeyID: "k", Validity: 86400, Identifier: "ssh-user-key"},
+				Case{Endpoints: []Endpoint{refuse, refuse, kinds[0]}, Principals: []string{"user_a", "user_b"}, KeyID: "k", Validity: 7200, Identifier: "ssh-user-key"})
+		}
+	}
 	var rec func(prefix []Endpoint, n int)
 	rec = func(prefix []Endpoint, n int) {
 		if len(prefix) == n {
@@ -458,7 +467,7 @@ func TestC17Vectors(t *testing.T) {
 		rec(nil, n)
 	}
 	vh.Enumerate(t, vh.Spec[Case]{Property: "C17", Name: "TestC17Vectors", Exhaustive: true,
-		Rule: "every vector over {signs, RPC error (Unavailable), unparsable key text, no listener} for endpoint lists of length 0..3 (1 + 4 + 16 + 64 = 85 lists), plus 4 lists whose signing endpoint answers with very long lines (a 130 KiB certificate first, a 64 KiB certificate with a 70 KB comment in the middle); same oracle",
+		Rule: "every vector over {signs, RPC error (Unavailable), unparsable key text, no listener} for endpoint lists of length 0..3 (1 + 4 + 16 + 64 = 85 lists), plus 42 lists in which one or two endpoints refuse with each of the texts real CAs send (maximum validity exceeded, unknown key identifier, too many principals, retry hints, rate limit with another endpoint's address) under three status codes in front of a signing endpoint, plus 4 lists whose signing endpoint answers with very long lines (a 130 KiB certificate first, a 64 KiB certificate with a 70 KB comment in the middle); same oracle",
 		Exec: exec}, cases)
 }
 
